@@ -20,10 +20,7 @@ KIND = {"graph": "KGraph", "newgraph": "KNewGraph", "deletegraph": "KDeleteGraph
 
 
 def hfault(args):
-    rc, out = sh([os.path.join(BIN, "h_fault")] + args, cwd=REPO, env=vcheck.goenv(), timeout=2400)
-    if rc != 0:
-        raise vcheck.Broken("h_fault failed", out[-3000:])
-    return [json.loads(l) for l in out.splitlines() if l.startswith("{")]
+    return X.run_harness(os.path.join(BIN, "h_fault"), args, REPO, vcheck.goenv(), 3000)
 
 
 def call(c):
